@@ -211,6 +211,8 @@ def _worker(conn, pid, tier, base_seed):
       out['cov'] = _k.coverage_take()
       if not sent_universe:
         out['cov_universe'] = _k.coverage_universe()
+        from . import seams as _s
+        out['anchors_missing'] = list(_s.anchors_missing)
         sent_universe = True
       conn.send(out)
   except (EOFError, KeyboardInterrupt):
@@ -503,6 +505,7 @@ def run_check(pid, tier, base_seed=None, jobs=None, budget_s=None):
       agg.setdefault('digests', []).extend(out.get('digests', ()))
     if 'cov_universe' in out:
       agg['cov_universe'].update(out['cov_universe'])
+      agg.setdefault('anchors_missing', set()).update(out.get('anchors_missing', ()))
     for v in out['violations']:
       cur = agg['violations'].get(v['key'])
       if cur is None or (v['stratum'], v['index']) < (cur['stratum'], cur['index']):
@@ -646,7 +649,7 @@ def write_evidence(pid, tier, base_seed, check, agg, wall, search_s, n_new, know
               'queue.PriorityQueue', 'collections.deque (recording subclass of the real deque)',
               'time.sleep/time.time', 'datetime.now', 'uuid.uuid4', 'print/pprint'],
     'miros_lines_executed': line_reach(agg),
-    'anchors_missing': list(seams.anchors_missing),
+    'anchors_missing': sorted(agg.get('anchors_missing', ())),
     'tree_fingerprint': seams.fingerprint(),
     'known_findings_reobserved': known_seen,
     'new_violation_classes': n_new,
